@@ -603,6 +603,20 @@ class Flow:
                 clobber = any(n in self._defs and names & set(self._defs[n]) for n in between if n is not t)
                 if not clobber:
                     return t, bool(lab)
+        # `if c: x = new` without else: the earlier definition survives on the other edge
+        for (da, ea, db, first) in ((d1, e1, d2, True), (d2, e2, d1, False)):
+            for t, lab in ea:
+                if self.cfg.dominates(db, t) and (use is None or self.cfg.dominates(t, use)) and (t, not lab) not in ea:
+                    edge = [x for x in t.succ if x.kind == "edge" and x.label is lab]
+                    if not edge or use is None or use in cfg.reach(edge[0], avoid={da}):
+                        continue          # on this edge the use can be reached without passing the new definition
+                    names = {x.id for x in ast.walk(t.expr) if isinstance(x, ast.Name)}
+                    between = cfg.reach(t, avoid={use}) if use is not None else set()
+                    # the variable itself may be (re)defined on the gated edge - that is da; other inputs of the test must be stable
+                    clobber = any(n in self._defs and (names & set(self._defs[n])) and n is not da for n in between if n is not t)
+                    if not clobber:
+                        # da holds on edge `lab`, db on the other one
+                        return t, (bool(lab) if first else (not bool(lab)))
         return None
 
     def _loop_built(self, name, defnode, use):
